@@ -527,6 +527,15 @@ func (l RetLeaf) GuardedBy(pred func(g Guard) bool) bool {
 	return false
 }
 
+// valueLeaves enumerates the values that can flow into v (used in block at),
+// expanding phis the way returnLeaves does, so that each leaf knows the
+// guards of its own path (phi edges included).
+func valueLeaves(v ssa.Value, at *ssa.BasicBlock) []RetLeaf {
+	var out []RetLeaf
+	expandLeaves(v, at, nil, map[ssa.Value]bool{}, &out)
+	return out
+}
+
 // returnLeaves enumerates the values that can reach result slot idx of f,
 // expanding phis; for a phi leaf the guarding block is the predecessor the
 // edge comes from.
